@@ -219,7 +219,7 @@ def kernel_observe_published(fns):
 def c13(fns, tier, env):
     lb = 3 if tier == "quick" else 5
     out = [kernel_reserve_memory(fns, lb), kernel_reservation_drop(fns), kernel_release_memory(fns), kernel_record_size(fns)]
-    out += sites_c13(fns)
+    out += sites_c13(fns, tier)
     return finalize(out, env)
 
 
@@ -395,8 +395,8 @@ def record_field_index(fns, what):
     raise mir.MirError("unknown field")
 
 
-def site_update_record(fns, suffix, bytes_version):
-    f = mir.find(fns, suffix, "src/core/store/internal.rs")
+def site_update_record(fns, suffix, bytes_version, file_hint="src/core/store/internal.rs", ts_tuple_local=None, identity_local=None, witness="c13_update_accounting"):
+    f = mir.find(fns, suffix, file_hint)
     ob = Ob("site" + suffix.replace("::", "_"), "%s: every path that replaces the entry (a) holds the entry guard, (b) has ts_new > current.timestamp in its "
             "path condition, (c) reserves saturating(new_size - size(CURRENT entry)) and releases size(CURRENT) - new_size, committing the reservation, "
             "(d) links the successor on / retires the CURRENT entry, (e) then publishes to the ordered index and observes the published timestamp; "
@@ -407,8 +407,11 @@ def site_update_record(fns, suffix, bytes_version):
     explicit = z3.Bool("explicit")
 
     def init(it_, st):
-        st["env"]["_4"] = ts
-        st["env"]["_5"] = explicit
+        if ts_tuple_local:
+            st["env"][ts_tuple_local] = mir.Tup([ts, explicit])
+        else:
+            st["env"]["_4"] = ts
+            st["env"]["_5"] = explicit
     reached = 0
     for p in it.run(init):
         ob.paths += 1
@@ -418,6 +421,12 @@ def site_update_record(fns, suffix, bytes_version):
         if p.status != "return":
             continue
         ins = events(p, "OccupiedEntry::insert")
+        if ins and identity_local:
+            cur0 = guarded_entry_value(it, p)
+            exp = it.read_local({"env": p.env}, identity_local)
+            if cur0 is not None:
+                ob.need(it, ins[0].pc, it.as_u(cur0) == it.as_u(exp),
+                        "(f) the entry is replaced only if it still IS the generation whose value was read (pointer identity under the guard)")
         retu = it.as_u(p.ret)
         is_err, _ = it.entails(p.pc, it.ctx.disc(retu) == 1)
         if not ins:
@@ -481,13 +490,63 @@ def site_update_record(fns, suffix, bytes_version):
             ar = events(p, "WriteBuffer::add_replacement")
             ob.must_hold(bool(ar) and idx_of(p, ar[0]) > idx_of(p, e_ins), "an Err after publication can only come from the write buffer (shutdown)")
     ob.must_hold(reached >= 1, "the replacement site was reached on some path")
-    return ob.result(it, witness="c13_update_accounting" if True else None)
+    return ob.result(it, witness=witness)
 
 
-def sites_c13(fns):
-    return [site_update_record(fns, "::update_record_with_ttl", False),
-            site_update_record(fns, "::update_record_with_ttl_bytes", True),
-            site_delete(fns)]
+def sites_c13(fns, tier="quick"):
+    out = [site_update_record(fns, "::update_record_with_ttl", False),
+           site_update_record(fns, "::update_record_with_ttl_bytes", True),
+           site_delete(fns)]
+    if tier == "thorough":   # ~4-7 min each: several hundred paths through the retry loop
+        out += [site_insert_vacant(fns, "::insert_with_timestamp_and_ttl_internal"),
+                site_insert_vacant(fns, "::insert_bytes_with_expiry")]
+    return out
+
+
+def site_insert_vacant(fns, suffix):
+    f = mir.find(fns, suffix, "src/core/store/operations.rs")
+    ob = Ob("site" + suffix.replace("::", "_"), "%s (new key): the whole record size is reserved before the entry is created, the entry is created only in the "
+            "Vacant arm, then the ordered index is filled, the timestamp observed, the reservation committed and record_count incremented by one; "
+            "a path that creates nothing commits nothing and counts nothing; an existing key with an equal-or-newer timestamp is refused before any effect" % suffix,
+            "all paths, retry loop unrolled twice", f)
+    ts_idx = record_field_index(fns, "timestamp")
+    it = Interp(f, loop_bound=2, pure=PURE + ("::resolve_timestamp",), max_paths=8000)
+    reached = 0
+    for p in it.run():
+        ob.paths += 1
+        if p.status == "truncated":
+            ob.truncated += 1
+            continue
+        if p.status != "return":
+            continue
+        ins = events(p, "VacantEntry::insert_entry")
+        commits = events(p, "MemoryReservation::commit")
+        counts = [e for e in events(p, "Atomic::fetch_add") if z3.is_bv(e.args[1]) and e.args[1].size() == 32]
+        if not ins:
+            ob.must_hold(not commits, "no reservation is committed on a path that creates no entry")
+            ob.must_hold(not counts, "record_count untouched on a path that creates no entry")
+            ob.must_hold(not events(p, "::insert_into_tree"), "ordered index untouched on a path that creates no entry")
+            ob.must_hold(not events(p, "::observe_published_timestamp"), "a failing call's timestamp is not absorbed into the clock")
+            continue
+        reached += 1
+        e_ins = ins[-1]
+        res = [e for e in events(p, "::reserve_memory") if idx_of(p, e) < idx_of(p, e_ins)]
+        ob.must_hold(len(res) >= 1, "memory is reserved before the entry is created")
+        sizes = events(p, "::calculate_record_size")
+        if res and sizes:
+            ob.need(it, p.pc, res[-1].args[1] == sizes[0].ret, "reserved amount == calculate_record_size(key, value)")
+        ob.must_hold(len([c for c in commits if idx_of(p, c) > idx_of(p, e_ins)]) == 1, "reservation committed once, after publication")
+        ob.must_hold(len([c for c in counts if idx_of(p, c) > idx_of(p, e_ins)]) == 1, "record_count incremented once, after publication")
+        for c in counts:
+            ob.need(it, p.pc, c.args[1] == z3.BitVecVal(1, 32), "record_count += 1")
+        tree = [e for e in events(p, "::insert_into_tree") if idx_of(p, e) > idx_of(p, e_ins)]
+        ob.must_hold(len(tree) == 1, "ordered index filled after the hash table")
+        if tree:
+            ob.need(it, p.pc, it.as_u(tree[0].args[2]) == it.as_u(e_ins.args[1]), "ordered index holds the published record")
+        obs = [e for e in events(p, "::observe_published_timestamp") if idx_of(p, e) > idx_of(p, e_ins)]
+        ob.must_hold(len(obs) == 1, "published timestamp observed")
+    ob.must_hold(reached >= 1, "the creation site was reached")
+    return ob.result(it)
 
 
 def site_delete(fns):
@@ -538,6 +597,13 @@ def site_delete(fns):
                      "ordered index entry removed")
     ob.must_hold(reached >= 1, "the removal site was reached")
     return ob.result(it, witness=None)
+
+
+def c07(fns, tier, env):
+    out = [site_update_record(fns, "::replace_record_if_current", False, file_hint="src/core/store/atomic.rs", ts_tuple_local="_5", identity_local="_3", witness="c07_lost_increment"),
+           site_update_record(fns, "::update_record_with_ttl", False),
+           site_delete(fns)]
+    return finalize(out, env)
 
 
 def sites_c12(fns):
